@@ -109,6 +109,9 @@ pub struct XTable {
     /// totalsRowShown: whether a totals row was shown the last time one existed — says nothing about one existing now
     pub totals_row_shown: Option<bool>,
     pub columns: Vec<String>,
+    /// what Excel writes besides: autoFilter (with header rows), a calculated column, tableStyleInfo and the x14:table
+    /// alt-text extension in extLst (an element whose local name is `table` again)
+    pub extras: bool,
 }
 
 #[derive(Clone, Debug)]
@@ -471,9 +474,15 @@ pub fn table_xml(t: &XTable, id: usize) -> String {
     if let Some(h) = t.totals_rows { o.push_str(&format!(" totalsRowCount=\"{h}\"")); }
     if let Some(h) = t.totals_row_shown { o.push_str(&format!(" totalsRowShown=\"{}\"", h as u8)); }
     o.push('>');
+    if t.extras && t.header_rows != Some(0) { o.push_str(&format!("<autoFilter ref=\"{}\"/>", t.rf)); }
     o.push_str(&format!("<tableColumns count=\"{}\">", t.columns.len()));
-    for (i, c) in t.columns.iter().enumerate() { o.push_str(&format!("<tableColumn id=\"{}\" name=\"{}\"/>", i + 1, esc(c))); }
-    o.push_str("</tableColumns></table>");
+    for (i, c) in t.columns.iter().enumerate() {
+        if t.extras && i + 1 == t.columns.len() { o.push_str(&format!("<tableColumn id=\"{}\" name=\"{}\" dataDxfId=\"0\"><calculatedColumnFormula>1+1</calculatedColumnFormula></tableColumn>", i + 1, esc(c))); }
+        else { o.push_str(&format!("<tableColumn id=\"{}\" name=\"{}\"/>", i + 1, esc(c))); }
+    }
+    o.push_str("</tableColumns>");
+    if t.extras { o.push_str("<tableStyleInfo name=\"TableStyleMedium2\" showFirstColumn=\"0\" showLastColumn=\"0\" showRowStripes=\"1\" showColumnStripes=\"0\"/><extLst><ext uri=\"{504A1905-F514-4f6f-8877-14C23A59335A}\" xmlns:x14=\"http://schemas.microsoft.com/office/spreadsheetml/2009/9/main\"><x14:table altText=\"alt\" altTextSummary=\"summary &amp; more\"/></ext></extLst>"); }
+    o.push_str("</table>");
     o
 }
 
